@@ -142,7 +142,7 @@ impl<'a> Full<'a> {
         let mut m: Map<F::K, F::V, N> = Map::new();
         Self::fill_map::<F, N>(&mut rng, &mut m);
         let mut h = Holder::new(m, self.exact);
-        let absent = 900 + rng.below(50) as u32;
+        let absent = if N <= 16 { 20 + rng.below(10) as u32 } else { 900 + rng.below(50) as u32 };
         let stored: Vec<u32> = h.get().keys().map(|k| k.class()).collect();
         let mut fp = Fp::new(0xF011 + N as u64);
         for c in &stored {
@@ -336,7 +336,7 @@ impl<'a> Full<'a> {
         }
         let mut h = Holder::new(s, self.exact);
         let stored: Vec<u32> = h.get().iter().map(|k| k.class()).collect();
-        let absent = 900 + rng.below(50) as u32;
+        let absent = if N <= 16 { 20 + rng.below(10) as u32 } else { 900 + rng.below(50) as u32 };
         for ep in 0..SET_EPS.len() {
             let name = SET_EPS[ep];
             for present in [false, true] {
